@@ -3,6 +3,7 @@ package nfa
 import (
 	"errors"
 	"fmt"
+	"math"
 
 	auto "github.com/moorara/algo/automata"
 	comb "github.com/moorara/algo/parser/combinator"
@@ -494,6 +495,11 @@ func runeRangesToNFA(neg bool, ranges ...[2]rune) (*auto.NFA, []rune) {
 			for r := g[0]; r <= g[1]; r++ {
 				nfa.Add(0, auto.Symbol(r), []auto.State{1})
 				chars = append(chars, r)
+
+				// The largest rune cannot be incremented: r++ would wrap around and the loop would never end.
+				if r == math.MaxInt32 {
+					break
+				}
 			}
 		}
 	}
